@@ -99,7 +99,8 @@ def import_(src, name):
         shutil.copy(os.path.join(src, f), os.path.join(dst, f))
     meta = json.load(open(os.path.join(dst, 'meta.json')))
     meta['property'] = name.split('-')[0]
-    meta['round'] = 2
+    meta['round'] = int(os.environ.get('SEEDED_ROUND', '4'))
+    meta.setdefault('needs', meta.get('trigger', ''))
     json.dump(meta, open(os.path.join(dst, 'meta.json'), 'w'), indent=1)
     return dst
 
